@@ -504,9 +504,9 @@ def handle (o : Op) : Option String :=
   match o.name with
   | "GNI" => some (handleGni o)
   | "STOP" => some (handleStop o)
-  | "PEAKS" => some (handlePeaks o)
+  | "SIFT-PEAKS" => some (handlePeaks o)
   | "SIFT" => some (handleSift false o)
-  | "MASKSIFT" => some (handleSift true o)
+  | "MASKSIFT-PEEL" => some (handleSift true o)
   | "ENS-SHAPE" => some (handleEns o)
   | "CEEMD-SHAPE" => some (handleCeemd o)
   | "L2-SHAPE" => some (handleL2 o)
